@@ -91,6 +91,35 @@ Theorem C07_step_preserves_partial :
 Proof. exact step_preserves_partial. Qed.
 Print Assumptions C07_step_preserves_partial.
 
+(* constructor level (used by the calls above AND by the unproved add_component / add_facility / add_switch):
+   the sliver additions create node + owner edge together (abc_property_graph.py:1242-1301) -- the pair
+   add_node ; add_link keeps WF whatever its outcome, and when it returns normally the graph is the unit add_owned *)
+Theorem C07_node_and_owner_edge_unit :
+  forall n a rl s s' r, WF (sg s) -> (has_id (sg s) (nid n) = false -> owned_ok (sg s) n a rl = true) ->
+    bind (add_node n) (fun _ => add_link a rl (nid n)) s = (s', r) ->
+    WF (sg s') /\ (r = Ok tt -> sg s' = add_owned (sg s) n a rl).
+Proof. exact api_add_owned. Qed.
+Print Assumptions C07_node_and_owner_edge_unit.
+(* Interface(NEW) (interface.py:62-80) for every interface kind but a service port, under a service or a parent port *)
+Theorem C07_new_interface_preserves :
+  forall sub name iid parent itype lab s s' r,
+    WF (sg s) -> type_allowed KCP itype = true -> str_eqb itype sServicePort = false ->
+    (if str_eqb itype sSubInterface then cls_is (sg s) parent KCP && negb (typ_is (sg s) parent sSubInterface)
+     else cls_is (sg s) parent KNS) = true ->
+    sibling_free (sg s) parent Connects KCP (Some name) = true ->
+    new_interface sub name iid parent itype lab s = (s', r) -> WF (sg s').
+Proof. exact api_new_interface. Qed.
+Print Assumptions C07_new_interface_preserves.
+(* NetworkService(NEW) under a node or component (network_service.py:80-98) *)
+Theorem C07_new_owned_service_preserves :
+  forall name sid nstype p s s' r,
+    WF (sg s) -> type_allowed KNS nstype = true ->
+    (cls_is (sg s) p KNode = true \/ cls_is (sg s) p KComposite = true \/ cls_is (sg s) p KComp = true) ->
+    sibling_free (sg s) p Has KNS (Some name) = true ->
+    new_service name sid nstype (Some p) s = (s', r) -> WF (sg s').
+Proof. exact api_new_service_owned. Qed.
+Print Assumptions C07_new_owned_service_preserves.
+
 (* all histories of proved calls, by induction over the history, from any well-formed model *)
 Theorem C07_all_histories_partial :
   forall sub h g, WF g -> pre_along sub g h = true -> WF (run_hist sub g h).
